@@ -23,6 +23,16 @@ def char_scenarios(rng, quick):
         out.append(sc(dict(len=L, allowChars=o("ab"), excludeChars=o("ba")), tag="empty-alphabet"))
         out.append(sc(dict(len=L, allow=15, exclude=16), tag="default-like"))
         out.append(sc(dict(len=L, requireSets=[o("ab"), o("bc")]), tag="overlapping-required"))
+    # recipes that name their characters through Require alone (partially initialised literals): the required classes ARE the alphabet
+    for rq in (4, 3, 16, 12, 31, 8):
+        for L in (1, 6):
+            out.append(sc(dict(len=L, require=rq), tag="require-only"))
+    out.append(sc(dict(len=4, requireSets=[o("abc")]), tag="require-only"))
+    # counts whose terms are exactly 2^64 / 2^32 (16 characters x 16, 4 x 32, 2 x 64, 256 x 8; 16 x 8, 4 x 16, 2 x 32) with a requirement
+    for chars, L in (("0123456789abcdef", 16), ("ACGT", 32), ("01", 64), ("0123456789abcdef", 8), ("ACGT", 16), ("01", 32), ("0123456789abcdef", 15), ("0123456789abcdef", 17)):
+        out.append(sc(dict(len=L, allowChars=o(chars), requireSets=[o(chars[-1])]), tag="power-boundary"))
+        out.append(sc(dict(len=L, allowChars=o(chars), requireSets=[o(chars[:len(chars) // 2])]), tag="power-boundary"))
+    out.append(sc(dict(len=8, allowChars=[0x4E00 + i for i in range(256)], requireSets=[[0x4E00, 0x4E01]]), tag="power-boundary"))
     # the refusal band: filler alphabet of size A, one required character: p = 1 - ((A-1)/A)^L
     for A in (11, 27, 37, 63):
         filler = [0x4E00 + i for i in range(A - 1)]
